@@ -1425,4 +1425,51 @@ theorem infixUsage_kw (lam : Bool) {kw : List Char} (h : kw = thenLit ∨ kw = e
   · exact infixUsage_none_of_heads lam l 't' _ kw_heads.1 kw_heads.2.1 (by decide)
   · exact infixUsage_none_of_heads lam l 'e' _ kw_heads.2.2.1 kw_heads.2.2.2 (by decide)
 
+/-! ### (8) the head of a do-block: where none starts -/
+
+theorem termAtom_do : termAtom ['d', 'o'] = none := by decide +kernel
+
+theorem atomText_ne_do {e : Expr} (h : atomOk e = true) : atomText e ≠ ['d', 'o'] := by
+  intro he
+  have := (atom_word h).2.2.2 [] rfl
+  rw [List.append_nil, he, termAtom_do] at this
+  cases this
+
+theorem doHead_none_of_head {c : Char} (tl : List Char) (h : c ≠ 'd') : doHead (c :: tl) = none := by
+  have : ¬ ('d' = c) := fun e => h e.symm
+  simp [doHead, lit, this]
+
+theorem wnAtom_identChar {c : Char} (tl : List Char) (h : isIdentChar c = true) :
+    wnAtom (c :: tl) = none := by
+  obtain ⟨h1, h2, h3, h4, _⟩ := isIdentChar_cases h
+  have e2 : ¬ ('\r' = c) := fun e => h4 e.symm
+  have e3 : ¬ ('\n' = c) := fun e => h3 e.symm
+  simp [wnAtom, orElse, whitespace, isWs, plainNewline, lit, h1, h2, e2, e3]
+
+/-- a word of identifier characters other than `do` is not the keyword -/
+theorem doHead_word {w rest : List Char} (hall : ∀ x ∈ w, isIdentChar x = true)
+    (hne : w ≠ ['d', 'o']) (hnn : w ≠ []) (hb : Boundary rest) : doHead (w ++ rest) = none := by
+  unfold doHead
+  cases hl : lit ['d', 'o'] (w ++ rest) with
+  | none => rfl
+  | some r =>
+    simp only
+    have he := lit_eq_some.mp hl
+    match w, hall, hne, hnn, he with
+    | [], _, _, hnn, _ => exact absurd rfl hnn
+    | [a], hall, _, _, he =>
+      exfalso
+      simp only [List.cons_append, List.nil_append, List.cons.injEq] at he
+      obtain ⟨rfl, he2⟩ := he
+      have := boundary_class hb isIdentChar (fun _ h => h) 'o' r (by rw [he2])
+      revert this; decide
+    | [a, b], _, hne, _, he =>
+      simp only [List.cons_append, List.nil_append, List.cons.injEq] at he
+      exact absurd (by rw [he.1, he.2.1]) hne
+    | a :: b :: c :: w', hall, _, _, he =>
+      simp only [List.cons_append, List.cons.injEq] at he
+      obtain ⟨_, _, rfl⟩ := he
+      have hc : isIdentChar c = true := hall c (by simp)
+      simp [wnPlus, wnAtom_identChar _ hc]
+
 end Blots.ExprPeg
